@@ -185,6 +185,9 @@ def run(tier, replay=None):
                     st["msb"] = rng.choice([1, 2, 7, 12]); st["lsb"] = 0
                     h += ["cc 0 101 0", "cc 0 100 0", "cc 0 6 %d" % st["msb"]]; exp += [None, None, None]
                     h.append("pb 0 %d" % st["bend"]); exp.append(dict(st))
+                elif c < 0.9:
+                    # the sostenuto pedal marks the held keys; they are still down, so the wheel keeps re-pitching them
+                    h.append("cc 0 66 %d" % rng.choice([127, 127, 0])); exp.append(None)
                 else:
                     h.append("gen 256"); exp.append(None)
             hs.append((h, keys, exp))
